@@ -571,7 +571,7 @@ C06_CONFIGS = {
 
 CMINX_CFG = """CONSTANT Dev <- {dev}
 CONSTANT MaxFiles = {n}
-CONSTANT Modes <- BothModes
+CONSTANT Modes <- AllModes
 INIT Init
 NEXT Next
 {invs}
